@@ -42,6 +42,7 @@ func runC10_9(c *core.Ctx) {
 	// --- Write(p)
 	if f := a.funcs["Write"]; f != nil {
 		p := f.param(0)
+		payload := derivedVars(f.Info, f.Decl.Body, map[types.Object]bool{types.Object(p): true})
 		prob := &flow.Problem{Must: true}
 		prob.Node = func(b *flow.Block, i int, n ast.Node, in uint64) uint64 {
 			for _, call := range flow.Calls(n) {
@@ -49,7 +50,7 @@ func runC10_9(c *core.Ctx) {
 					continue
 				}
 				for _, arg := range call.Args {
-					if base, _, _, _ := sliceParts(f.Info, arg); base == types.Object(p) {
+					if base, _, _, _ := sliceParts(f.Info, arg); base != nil && payload[base] {
 						in |= 1
 					}
 				}
